@@ -12,7 +12,10 @@ MODES = ['nearest', 'wrap', 'reflect', 'mirror', 'constant', 'ignore']
 DTYPES = ['float64', 'float32', 'int32', 'uint8', 'int8', 'int64', 'uint16', 'bool']
 DTN = {'float64': 'f64', 'float32': 'f32', 'bool': 'b1', 'uint8': 'u8', 'uint16': 'u16', 'uint32': 'u32',
        'uint64': 'u64', 'int8': 'i8', 'int16': 'i16', 'int32': 'i32', 'int64': 'i64'}
-SIGMAS = [0.25, 0.5, 0.75, 1.0, 1.25, 1.5, 2.0, 2.5, 3.0]      # 4*sigma+0.5 is k+0.5: far from the int() jumps
+# dyadic sigmas: 4*sigma+0.5 is computed exactly in double, so int(4*sigma+0.5) has no rounding ambiguity - both the
+# values far from the jumps (4*sigma integer) and the exact ties 4*sigma = m + 0.5 (where the truncation radius is decided
+# by the rounding rule: m+1, for even and odd m alike)
+SIGMAS = [0.25, 0.5, 0.75, 1.0, 1.25, 1.5, 2.0, 2.5, 3.0, 0.375, 0.625, 0.875, 1.125, 1.625, 2.625]
 RULE = ('corpus; systematic 1-D sweep (axis lengths 1-5 x kernel lengths 1..10N+1 x 6 modes, distinct sample values); '
         'random 1-3 D x 8 dtypes x 7 layouts x kernels of every shape (odd/even, with zeros, asymmetric, larger than the '
         'image up to 10x the axis length, strided kernels) x 6 modes x every axis incl. negative; raw fast-path entry point '
@@ -24,7 +27,7 @@ ASSUMPTIONS = ['weights are cast to the dtype of f first (documented: "If not of
                'array and kernel values are integers or dyadic fractions of small magnitude, so every double operation is exact '
                'and the comparison is bit-for-bit (as numbers: -0.0 == 0.0)',
                'Gaussian filters: comparison within 1e-11*(1+max|f|) (float64) / 1e-5 relative (float32); sigma on a grid with '
-               '4*sigma+0.5 at distance 0.5 from an integer; constant mode only with cval = 0 (the only value accepted)',
+               'dyadic values (4*sigma+0.5 exact in double, exact ties included); constant mode only with cval = 0 (the only value accepted)',
                'order-1 ramp response: |r - 1| < 5e-3 for sigma >= 1 at pixels farther than 4 sigma + 1 from the border',
                'no NaN/inf in arrays or kernels; sizes < 2^31']
 TRUSTED = ['numpy (array construction, layout views)']
